@@ -25,7 +25,11 @@ var lengths = []int{0, 1, 65535, 65536, 65537, 131072, 131073, 196609, 5, 70000}
 
 // armoredLenAdjust returns plaintext lengths that make the whole binary file length hit 0, 1, 47 mod 48.
 func writePolicy(w io.Writer, pt []byte, pol int) error {
-	switch pol % 4 {
+	switch pol % 6 {
+	case 4:
+		return strm.WriteScribbling(w, pt, 65536)
+	case 5:
+		return strm.WriteScribbling(w, pt, []int{131072, 70000, 32768}[pol/6%3])
 	case 0:
 		_, err := w.Write(pt)
 		return err
